@@ -341,8 +341,14 @@ func InstrumentGenerated(dir, hrtImport string) (*GenReport, error) {
 			siteNo++
 			rep.Yields++
 			site := fmt.Sprintf("%s:%s:%d", strings.TrimSuffix(name, ".gen.go"), fnName, siteNo)
+			sel := "Tick"
+			if fnName == "_Find" {
+				// table lookup helper: counted and preemptible, but a budget
+				// verdict is attributed to the calling function
+				sel = "TickLeaf"
+			}
 			return &ast.ExprStmt{X: &ast.CallExpr{
-				Fun:  &ast.SelectorExpr{X: ast.NewIdent("hrt"), Sel: ast.NewIdent("Tick")},
+				Fun:  &ast.SelectorExpr{X: ast.NewIdent("hrt"), Sel: ast.NewIdent(sel)},
 				Args: []ast.Expr{&ast.BasicLit{Kind: token.STRING, Value: strconv.Quote(site)}},
 			}}
 		}
@@ -359,8 +365,12 @@ func InstrumentGenerated(dir, hrtImport string) (*GenReport, error) {
 				continue
 			}
 			rep.Yields++
+			enterSel := "Enter"
+			if fnName == "_Find" {
+				enterSel = "TickLeaf"
+			}
 			enter := &ast.ExprStmt{X: &ast.CallExpr{
-				Fun:  &ast.SelectorExpr{X: ast.NewIdent("hrt"), Sel: ast.NewIdent("Enter")},
+				Fun:  &ast.SelectorExpr{X: ast.NewIdent("hrt"), Sel: ast.NewIdent(enterSel)},
 				Args: []ast.Expr{&ast.BasicLit{Kind: token.STRING, Value: strconv.Quote(strings.TrimSuffix(name, ".gen.go") + ":" + fnName)}},
 			}}
 			fd.Body.List = append([]ast.Stmt{enter}, fd.Body.List...)
